@@ -34,198 +34,207 @@ def check(ctx) -> Result:
     sp = S.methods.get("_single_photon_distribution")
     if sp is None:
         raise AnalysisError("Source._single_photon_distribution not found")
-    Poly.rules = {}
-    fd = Folder(angle_names=())
-    nu, pi_, p1 = Poly.gen("nu"), Poly.gen("p_i"), Poly.gen("p1")
-    # The outcome table may be built in pieces, some of them under a condition on one of the parameters
-    # (`if p_d > 0: to_add += [...]`).  Every path through the function gives a table; on a path that assumed a
-    # parameter expression to be zero / non-positive the identities are checked under that substitution.
-    unfold = []
+    def _outcome_table_rules():
+        Poly.rules = {}
+        fd = Folder(angle_names=())
+        nu, pi_, p1 = Poly.gen("nu"), Poly.gen("p_i"), Poly.gen("p1")
+        # The outcome table may be built in pieces, some of them under a condition on one of the parameters
+        # (`if p_d > 0: to_add += [...]`).  Every path through the function gives a table; on a path that assumed a
+        # parameter expression to be zero / non-positive the identities are checked under that substitution.
+        unfold = []
 
-    def bind(name, v, env):
-        s_ = src(v).replace(" ", "")
-        if s_ == "self.brightness":
-            env[name] = nu
-        elif s_ in ("self.indistinguishability**0.5", "np.sqrt(self.indistinguishability)", "self.indistinguishability**(1/2)", "sqrt(self.indistinguishability)"):
-            env[name] = pi_
-        elif s_ == "purity_to_prob(self.purity)":
-            env[name] = p1
-        elif s_ in ("self._counter", "self._counter+1"):
-            env[name] = name  # label symbol
-        else:
+        def bind(name, v, env):
+            s_ = src(v).replace(" ", "")
+            if s_ == "self.brightness":
+                env[name] = nu
+            elif s_ in ("self.indistinguishability**0.5", "np.sqrt(self.indistinguishability)", "self.indistinguishability**(1/2)", "sqrt(self.indistinguishability)"):
+                env[name] = pi_
+            elif s_ == "purity_to_prob(self.purity)":
+                env[name] = p1
+            elif s_ in ("self._counter", "self._counter+1"):
+                env[name] = name  # label symbol
+            else:
+                f2 = Folder(angle_names=())
+                f2.env = env
+                try:
+                    env[name] = f2.fold(v)
+                except NotFoldable as e:
+                    unfold.append(f"`{name} = {src(v)[:50]}`: {e}")
+
+        def table_elts(v):
+            return v.elts if isinstance(v, ast.List) and all(isinstance(e_, ast.Tuple) and len(e_.elts) == 2 and isinstance(e_.elts[0], ast.List) for e_ in v.elts) else None
+
+        def zero_subst(test, env, truth):
+            """substitution implied by the outcome of a test `P > 0` / `P == 0` / `P` on a polynomial that is linear in one generator"""
+            t = test
+            neg = False
+            if isinstance(t, ast.UnaryOp) and isinstance(t.op, ast.Not):
+                t, neg = t.operand, True
+            is_zero = None
+            expr = None
+            if isinstance(t, ast.Compare) and len(t.ops) == 1 and isinstance(t.comparators[0], ast.Constant) and t.comparators[0].value == 0:
+                expr = t.left
+                if isinstance(t.ops[0], (ast.Gt, ast.NotEq)):
+                    is_zero = not truth
+                elif isinstance(t.ops[0], (ast.Eq, ast.LtE)):
+                    is_zero = truth
+            elif isinstance(t, ast.Name):
+                expr, is_zero = t, not truth
+            if expr is None or is_zero is None:
+                return None
+            if neg:
+                is_zero = not is_zero
+            if not is_zero:
+                return {}
             f2 = Folder(angle_names=())
-            f2.env = env
+            f2.env = dict(env)
             try:
-                env[name] = f2.fold(v)
-            except NotFoldable as e:
-                unfold.append(f"`{name} = {src(v)[:50]}`: {e}")
+                poly = f2.fold(expr)
+            except NotFoldable:
+                return None
+            if not isinstance(poly, Poly):
+                return None
+            gens = list(poly.gens())
+            if len(gens) != 1:
+                return None
+            g = gens[0]
+            v0, v1 = poly.subs({g: 0}), poly.subs({g: 1})
+            if v0.is_zero():
+                return {g: 0}
+            if v1.is_zero():
+                return {g: 1}
+            return None
 
-    def table_elts(v):
-        return v.elts if isinstance(v, ast.List) and all(isinstance(e_, ast.Tuple) and len(e_.elts) == 2 and isinstance(e_.elts[0], ast.List) for e_ in v.elts) else None
-
-    def zero_subst(test, env, truth):
-        """substitution implied by the outcome of a test `P > 0` / `P == 0` / `P` on a polynomial that is linear in one generator"""
-        t = test
-        neg = False
-        if isinstance(t, ast.UnaryOp) and isinstance(t.op, ast.Not):
-            t, neg = t.operand, True
-        is_zero = None
-        expr = None
-        if isinstance(t, ast.Compare) and len(t.ops) == 1 and isinstance(t.comparators[0], ast.Constant) and t.comparators[0].value == 0:
-            expr = t.left
-            if isinstance(t.ops[0], (ast.Gt, ast.NotEq)):
-                is_zero = not truth
-            elif isinstance(t.ops[0], (ast.Eq, ast.LtE)):
-                is_zero = truth
-        elif isinstance(t, ast.Name):
-            expr, is_zero = t, not truth
-        if expr is None or is_zero is None:
-            return None
-        if neg:
-            is_zero = not is_zero
-        if not is_zero:
-            return {}
-        f2 = Folder(angle_names=())
-        f2.env = dict(env)
-        try:
-            poly = f2.fold(expr)
-        except NotFoldable:
-            return None
-        if not isinstance(poly, Poly):
-            return None
-        gens = list(poly.gens())
-        if len(gens) != 1:
-            return None
-        g = gens[0]
-        v0, v1 = poly.subs({g: 0}), poly.subs({g: 1})
-        if v0.is_zero():
-            return {g: 0}
-        if v1.is_zero():
-            return {g: 1}
-        return None
-
-    def walk_paths(stmts, env, entries, subst):
-        paths = [(env, entries, subst)]
-        for st in stmts:
-            nxt = []
-            for env_, ent_, sub_ in paths:
-                if isinstance(st, (ast.Assign, ast.AnnAssign)) and isinstance(st.targets[0] if isinstance(st, ast.Assign) else st.target, ast.Name) and (st.value is not None):
-                    name = (st.targets[0] if isinstance(st, ast.Assign) else st.target).id
-                    te = table_elts(st.value)
-                    if te is not None:
-                        env2 = dict(env_)
-                        env2["__table__"] = name
-                        nxt.append((env2, list(te), sub_))
+        def walk_paths(stmts, env, entries, subst):
+            paths = [(env, entries, subst)]
+            for st in stmts:
+                nxt = []
+                for env_, ent_, sub_ in paths:
+                    if isinstance(st, (ast.Assign, ast.AnnAssign)) and isinstance(st.targets[0] if isinstance(st, ast.Assign) else st.target, ast.Name) and (st.value is not None):
+                        name = (st.targets[0] if isinstance(st, ast.Assign) else st.target).id
+                        te = table_elts(st.value)
+                        if te is not None:
+                            env2 = dict(env_)
+                            env2["__table__"] = name
+                            nxt.append((env2, list(te), sub_))
+                        else:
+                            env2 = dict(env_)
+                            bind(name, st.value, env2)
+                            nxt.append((env2, ent_, sub_))
+                    elif isinstance(st, ast.AugAssign) and isinstance(st.target, ast.Name) and st.target.id == env_.get("__table__") and isinstance(st.op, ast.Add) and table_elts(st.value) is not None:
+                        nxt.append((env_, ent_ + list(table_elts(st.value)), sub_))
+                    elif isinstance(st, ast.Expr) and isinstance(st.value, ast.Call) and isinstance(st.value.func, ast.Attribute) and st.value.func.attr in ("extend", "append") and src(st.value.func.value) == env_.get("__table__") and st.value.args:
+                        arg = st.value.args[0]
+                        te = table_elts(arg) if st.value.func.attr == "extend" else (table_elts(ast.List(elts=[arg], ctx=ast.Load())))
+                        nxt.append((env_, ent_ + list(te), sub_) if te is not None else (env_, ent_, sub_))
+                    elif isinstance(st, ast.If):
+                        for truth, body in ((True, st.body), (False, st.orelse)):
+                            zs = zero_subst(st.test, env_, truth)
+                            sub2 = dict(sub_)
+                            if zs:
+                                sub2.update(zs)
+                            nxt += walk_paths(body, dict(env_), list(ent_), sub2)
                     else:
-                        env2 = dict(env_)
-                        bind(name, st.value, env2)
-                        nxt.append((env2, ent_, sub_))
-                elif isinstance(st, ast.AugAssign) and isinstance(st.target, ast.Name) and st.target.id == env_.get("__table__") and isinstance(st.op, ast.Add) and table_elts(st.value) is not None:
-                    nxt.append((env_, ent_ + list(table_elts(st.value)), sub_))
-                elif isinstance(st, ast.Expr) and isinstance(st.value, ast.Call) and isinstance(st.value.func, ast.Attribute) and st.value.func.attr in ("extend", "append") and src(st.value.func.value) == env_.get("__table__") and st.value.args:
-                    arg = st.value.args[0]
-                    te = table_elts(arg) if st.value.func.attr == "extend" else (table_elts(ast.List(elts=[arg], ctx=ast.Load())))
-                    nxt.append((env_, ent_ + list(te), sub_) if te is not None else (env_, ent_, sub_))
-                elif isinstance(st, ast.If):
-                    for truth, body in ((True, st.body), (False, st.orelse)):
-                        zs = zero_subst(st.test, env_, truth)
-                        sub2 = dict(sub_)
-                        if zs:
-                            sub2.update(zs)
-                        nxt += walk_paths(body, dict(env_), list(ent_), sub2)
-                else:
-                    nxt.append((env_, ent_, sub_))
-            paths = nxt
-        return paths
+                        nxt.append((env_, ent_, sub_))
+                paths = nxt
+            return paths
 
-    env0 = {}
-    all_paths = walk_paths(sp.node.body, env0, [], {})
-    all_paths = [p_ for p_ in all_paths if p_[1]]
-    if unfold:
-        raise AnalysisError("_single_photon_distribution: " + "; ".join(unfold[:2]) + " is not polynomial")
-    if not all_paths:
-        raise AnalysisError("_single_photon_distribution: outcome table (list of (labels, coefficient)) not found")
-    # the reference table: the path that collected most entries
-    all_paths.sort(key=lambda p_: -len(p_[1]))
-    fd.env = all_paths[0][0]
-    entries = []
-    for el in all_paths[0][1]:
-        labels = [src(x) for x in el.elts[0].elts]
-        coef = fd.fold(el.elts[1])
-        entries.append((labels, coef, el))
-    for env_, ent_, sub_ in all_paths[1:]:
-        f3 = Folder(angle_names=())
-        f3.env = env_
-        tot = Poly()
-        for el in ent_:
-            tot = tot + f3.fold(el.elts[1])
-        tot = tot.subs(sub_) if sub_ else tot
-        cond = ", ".join(f"{k} = {v}" for k, v in sub_.items()) or "an unrecognised condition"
-        res.add(tot == Poly.const(1), "Kp-table-normalised", f"sum of outcomes on the path with {cond}", sp.site(ent_[0]), sp.qualname, f"the {len(ent_)} outcomes collected on this path sum to 1 under {cond}",
-                f"on the path taken when {cond} only {len(ent_)} outcomes are collected and they sum to {tot}, not 1: the missing outcomes (e.g. the noise photon of an impure source) have non-zero probability there", construct=f"path {cond}")
-    res.floor("outcome table entries", len(entries), 6)
-    total = Poly()
-    for _l, c, _e in entries:
-        total = total + c
-    res.add(total == Poly.const(1), "Kp-table-normalised", "sum of outcomes", sp.site(), sp.qualname, "the outcome probabilities sum to 1 for every (brightness, indistinguishability, purity)",
-            f"outcome probabilities sum to {total}, not 1", construct="sum")
-    one = {"nu": 1, "p_i": 1, "p1": 1}
-    for labels, c, el in entries:
-        v = c.subs(one)
-        want = 1 if labels == ["0"] else 0
-        res.add(v == Poly.const(want), "Kp-ideal-limit", f"labels {labels}", sp.site(el), sp.qualname, f"= {want} at perfect settings", f"at brightness = indistinguishability = purity = 1 the outcome {labels} has probability {v} (ideal source needs {want})", construct=str(labels))
-    # which symbol is the per-photon distinguishable label and which the noise-photon label: by use
-    for labels, c, el in entries:
-        nm = str(labels)
-        if "0" in labels:
-            z = c.subs({"p_i": 0})
-            res.add(z.is_zero(), "Kp-label-semantics", f"{nm}@p_i=0", sp.site(el), sp.qualname, "an outcome with the shared (indistinguishable) label has probability 0 at zero indistinguishability",
-                    f"outcome {labels} carries the shared label but keeps probability {z} at zero indistinguishability: photons would still interfere", construct=nm)
-        for lab in labels:
-            if lab == "0":
-                continue
-            # a fresh label: either the distinguishable copy of the source photon (vanishes at p_i = 1 unless it is the noise photon) or the noise photon (vanishes at p1 = 1)
-            v_pi = c.subs({"p_i": 1})
-            v_p1 = c.subs({"p1": 1})
-            res.add(v_pi.is_zero() or v_p1.is_zero(), "Kp-label-semantics", f"{nm}:{lab}", sp.site(el), sp.qualname, "an outcome with a fresh label vanishes for a perfectly indistinguishable or perfectly pure source",
-                    f"outcome {labels} with fresh label {lab} survives both at indistinguishability 1 ({v_pi}) and at purity 1 ({v_p1})", construct=nm)
-    # grouping by photon content: splitting by distinguishability creates no mass
-    def group(pred):
-        t = Poly()
-        for labels, c, _e in entries:
-            if pred(labels):
-                t = t + c
-        return t
-    syms = sorted({l for labels, _c, _e in entries for l in labels if l != "0"})
-    if len(syms) != 2:
-        raise AnalysisError(f"expected two fresh label symbols, found {syms}")
-    # the noise label is the one that appears together with the shared label 0
-    noise = next((l for labels, _c, _e in entries for l in labels if "0" in labels and l != "0"), None)
-    dist = [l for l in syms if l != noise][0]
-    single = group(lambda L: len(L) == 1 and (L == ["0"] or L == [dist]))
-    double = group(lambda L: len(L) == 2)
-    res.add("p_i" not in single.gens() and "p_i" not in double.gens(), "Kp-split-conserves-mass", "distinguishability split", sp.site(), sp.qualname, "P(one source photon) and P(two photons) do not depend on the indistinguishability",
-            f"the indistinguishability changes the photon-number statistics: single = {single}, double = {double}", construct="split")
-    for labels, c, el in entries:
-        if noise in labels:
-            v = c.subs({"p1": 1})
-            res.add(v.is_zero(), "Kp-label-semantics", f"{labels}@p1=1", sp.site(el), sp.qualname, "noise-photon outcomes vanish for a pure source", f"outcome {labels} keeps probability {v} at purity 1", construct=str(labels))
-        if dist in labels:
-            v = c.subs({"p_i": 1})
-            res.add(v.is_zero(), "Kp-label-semantics", f"{labels}@p_i=1", sp.site(el), sp.qualname, "distinguishable-copy outcomes vanish at indistinguishability 1", f"outcome {labels} keeps probability {v} at indistinguishability 1", construct=str(labels))
-    # ---- label allocator
-    defs = {src(a.targets[0]): src(a.value).replace(" ", "") for a in walk_no_nested(sp.node) if isinstance(a, ast.Assign)}
-    augs = [a for a in walk_no_nested(sp.node) if isinstance(a, ast.AugAssign) and src(a.target) == "self._counter"]
-    vals = sorted(v for k, v in defs.items() if v.startswith("self._counter"))
-    okl = vals == ["self._counter", "self._counter+1"] and len(augs) == 1 and isinstance(augs[0].op, ast.Add) and src(augs[0].value) == "2"
-    res.add(okl, "M5-fresh-labels", "_single_photon_distribution", sp.site(), sp.qualname, "two fresh labels per photon, counter advanced by two", f"label allocation is {vals} with increment {[src(a) for a in augs]}: two photons can receive the same 'distinguishable' label and would interfere", construct=str(vals))
-    full = S.methods["_build_statistics_full"]
-    rst = [a for a in walk_no_nested(full.node) if isinstance(a, ast.Assign) and src(a.targets[0]) == "self._counter"]
-    okr = len(rst) == 1 and isinstance(rst[0].value, ast.Constant) and isinstance(rst[0].value.value, int) and rst[0].value.value >= 1
-    calls_after = [c for c in walk_no_nested(full.node) if isinstance(c, ast.Call) and src(c.func) == "self._full_distribution"]
-    res.add(okr and bool(calls_after) and rst[0].lineno < calls_after[0].lineno, "M5-fresh-labels", "_build_statistics_full", full.site(), full.qualname, "counter restarts above the shared label 0 before each build", "label counter is not reset to a value > 0 before building (a fresh label can equal the shared label 0)", construct=src(rst[0]) if rst else "")
-    flt = [r for r in walk_no_nested(sp.node) if isinstance(r, ast.Return)]
-    res.add(bool(flt) and src(flt[0].value).replace(" ", "") == "[(s,p)fors,pinto_addifp>0]", "Kp-table-normalised", "returned entries", sp.site(flt[0]) if flt else sp.site(), sp.qualname, "all outcomes of positive probability are returned", "returned outcome list is not the table restricted to positive probabilities", construct=src(flt[0].value) if flt else "")
+        env0 = {}
+        all_paths = walk_paths(sp.node.body, env0, [], {})
+        all_paths = [p_ for p_ in all_paths if p_[1]]
+        if unfold:
+            raise AnalysisError("_single_photon_distribution: " + "; ".join(unfold[:2]) + " is not polynomial")
+        if not all_paths:
+            raise AnalysisError("_single_photon_distribution: outcome table (list of (labels, coefficient)) not found")
+        # the reference table: the path that collected most entries
+        all_paths.sort(key=lambda p_: -len(p_[1]))
+        fd.env = all_paths[0][0]
+        entries = []
+        for el in all_paths[0][1]:
+            labels = [src(x) for x in el.elts[0].elts]
+            coef = fd.fold(el.elts[1])
+            entries.append((labels, coef, el))
+        for env_, ent_, sub_ in all_paths[1:]:
+            f3 = Folder(angle_names=())
+            f3.env = env_
+            tot = Poly()
+            for el in ent_:
+                tot = tot + f3.fold(el.elts[1])
+            tot = tot.subs(sub_) if sub_ else tot
+            cond = ", ".join(f"{k} = {v}" for k, v in sub_.items()) or "an unrecognised condition"
+            res.add(tot == Poly.const(1), "Kp-table-normalised", f"sum of outcomes on the path with {cond}", sp.site(ent_[0]), sp.qualname, f"the {len(ent_)} outcomes collected on this path sum to 1 under {cond}",
+                    f"on the path taken when {cond} only {len(ent_)} outcomes are collected and they sum to {tot}, not 1: the missing outcomes (e.g. the noise photon of an impure source) have non-zero probability there", construct=f"path {cond}")
+        res.floor("outcome table entries", len(entries), 6)
+        total = Poly()
+        for _l, c, _e in entries:
+            total = total + c
+        res.add(total == Poly.const(1), "Kp-table-normalised", "sum of outcomes", sp.site(), sp.qualname, "the outcome probabilities sum to 1 for every (brightness, indistinguishability, purity)",
+                f"outcome probabilities sum to {total}, not 1", construct="sum")
+        one = {"nu": 1, "p_i": 1, "p1": 1}
+        for labels, c, el in entries:
+            v = c.subs(one)
+            want = 1 if labels == ["0"] else 0
+            res.add(v == Poly.const(want), "Kp-ideal-limit", f"labels {labels}", sp.site(el), sp.qualname, f"= {want} at perfect settings", f"at brightness = indistinguishability = purity = 1 the outcome {labels} has probability {v} (ideal source needs {want})", construct=str(labels))
+        # which symbol is the per-photon distinguishable label and which the noise-photon label: by use
+        for labels, c, el in entries:
+            nm = str(labels)
+            if "0" in labels:
+                z = c.subs({"p_i": 0})
+                res.add(z.is_zero(), "Kp-label-semantics", f"{nm}@p_i=0", sp.site(el), sp.qualname, "an outcome with the shared (indistinguishable) label has probability 0 at zero indistinguishability",
+                        f"outcome {labels} carries the shared label but keeps probability {z} at zero indistinguishability: photons would still interfere", construct=nm)
+            for lab in labels:
+                if lab == "0":
+                    continue
+                # a fresh label: either the distinguishable copy of the source photon (vanishes at p_i = 1 unless it is the noise photon) or the noise photon (vanishes at p1 = 1)
+                v_pi = c.subs({"p_i": 1})
+                v_p1 = c.subs({"p1": 1})
+                res.add(v_pi.is_zero() or v_p1.is_zero(), "Kp-label-semantics", f"{nm}:{lab}", sp.site(el), sp.qualname, "an outcome with a fresh label vanishes for a perfectly indistinguishable or perfectly pure source",
+                        f"outcome {labels} with fresh label {lab} survives both at indistinguishability 1 ({v_pi}) and at purity 1 ({v_p1})", construct=nm)
+        # grouping by photon content: splitting by distinguishability creates no mass
+        def group(pred):
+            t = Poly()
+            for labels, c, _e in entries:
+                if pred(labels):
+                    t = t + c
+            return t
+        syms = sorted({l for labels, _c, _e in entries for l in labels if l != "0"})
+        if len(syms) != 2:
+            raise AnalysisError(f"expected two fresh label symbols, found {syms}")
+        # the noise label is the one that appears together with the shared label 0
+        noise = next((l for labels, _c, _e in entries for l in labels if "0" in labels and l != "0"), None)
+        dist = [l for l in syms if l != noise][0]
+        single = group(lambda L: len(L) == 1 and (L == ["0"] or L == [dist]))
+        double = group(lambda L: len(L) == 2)
+        res.add("p_i" not in single.gens() and "p_i" not in double.gens(), "Kp-split-conserves-mass", "distinguishability split", sp.site(), sp.qualname, "P(one source photon) and P(two photons) do not depend on the indistinguishability",
+                f"the indistinguishability changes the photon-number statistics: single = {single}, double = {double}", construct="split")
+        for labels, c, el in entries:
+            if noise in labels:
+                v = c.subs({"p1": 1})
+                res.add(v.is_zero(), "Kp-label-semantics", f"{labels}@p1=1", sp.site(el), sp.qualname, "noise-photon outcomes vanish for a pure source", f"outcome {labels} keeps probability {v} at purity 1", construct=str(labels))
+            if dist in labels:
+                v = c.subs({"p_i": 1})
+                res.add(v.is_zero(), "Kp-label-semantics", f"{labels}@p_i=1", sp.site(el), sp.qualname, "distinguishable-copy outcomes vanish at indistinguishability 1", f"outcome {labels} keeps probability {v} at indistinguishability 1", construct=str(labels))
+        # ---- label allocator
+        defs = {src(a.targets[0]): src(a.value).replace(" ", "") for a in walk_no_nested(sp.node) if isinstance(a, ast.Assign)}
+        augs = [a for a in walk_no_nested(sp.node) if isinstance(a, ast.AugAssign) and src(a.target) == "self._counter"]
+        vals = sorted(v for k, v in defs.items() if v.startswith("self._counter"))
+        okl = vals == ["self._counter", "self._counter+1"] and len(augs) == 1 and isinstance(augs[0].op, ast.Add) and src(augs[0].value) == "2"
+        res.add(okl, "M5-fresh-labels", "_single_photon_distribution", sp.site(), sp.qualname, "two fresh labels per photon, counter advanced by two", f"label allocation is {vals} with increment {[src(a) for a in augs]}: two photons can receive the same 'distinguishable' label and would interfere", construct=str(vals))
+        full = S.methods["_build_statistics_full"]
+        rst = [a for a in walk_no_nested(full.node) if isinstance(a, ast.Assign) and src(a.targets[0]) == "self._counter"]
+        okr = len(rst) == 1 and isinstance(rst[0].value, ast.Constant) and isinstance(rst[0].value.value, int) and rst[0].value.value >= 1
+        calls_after = [c for c in walk_no_nested(full.node) if isinstance(c, ast.Call) and src(c.func) == "self._full_distribution"]
+        res.add(okr and bool(calls_after) and rst[0].lineno < calls_after[0].lineno, "M5-fresh-labels", "_build_statistics_full", full.site(), full.qualname, "counter restarts above the shared label 0 before each build", "label counter is not reset to a value > 0 before building (a fresh label can equal the shared label 0)", construct=src(rst[0]) if rst else "")
+        flt = [r for r in walk_no_nested(sp.node) if isinstance(r, ast.Return)]
+        res.add(bool(flt) and src(flt[0].value).replace(" ", "") == "[(s,p)fors,pinto_addifp>0]", "Kp-table-normalised", "returned entries", sp.site(flt[0]) if flt else sp.site(), sp.qualname, "all outcomes of positive probability are returned", "returned outcome list is not the table restricted to positive probabilities", construct=src(flt[0].value) if flt else "")
+
+    try:
+        _outcome_table_rules()
+    except (AnalysisError, NotFoldable, ValueError, TypeError, KeyError, IndexError, AttributeError) as e_:
+        # the single-photon outcome table is not in a form the folder can read (e.g. moved into another function / a
+        # named tuple zipped with the labels): the polynomial identities are not decided on this tree
+        res.frozen(False, "Kp-table-normalised", "sum of outcomes", sp.site(), sp.qualname, "", f"outcome table of _single_photon_distribution not folded: {str(e_)[:120]}", construct="table")
+        res.floors.pop("outcome table entries", None)
     # ---- R-G in Source and the annotated path
     n = 0
     for m in ("_build_statistics", "_build_statistics_basic", "_remap_distribution", "_full_distribution", "_single_mode_distribution"):
@@ -244,7 +253,8 @@ def check(ctx) -> Result:
             label_vars.add(n.target.id)
         if isinstance(n, ast.comprehension) and isinstance(n.target, ast.Name) and isinstance(n.iter, ast.Name) and n.iter.id in ("mode", "labels", "all_labels"):
             label_vars.add(n.target.id)
-    res.floor("label iteration variables", len(label_vars), 1)
+    if not label_vars:
+        res.frozen(False, "Kp-labels-opaque", "annotated_state_pdist_calc", apd.site(), apd.qualname, "", "iteration over photon labels not recognised", construct="")
     lit = [c for c in walk_no_nested(apd.node) if isinstance(c, ast.Compare) and ((isinstance(c.left, ast.Name) and c.left.id in label_vars and any(isinstance(x, ast.Constant) for x in c.comparators)) or (isinstance(c.left, ast.Constant) and any(isinstance(x, ast.Name) and x.id in label_vars for x in c.comparators)))]
     res.add(not lit, "Kp-labels-opaque", "annotated_state_pdist_calc", apd.site(lit[0]) if lit else apd.site(), apd.qualname, "photon labels are only used as dictionary keys / compared with each other",
             f"`{src(lit[0]) if lit else ''}` gives a particular label value a meaning, but labels are renumbered by order of first appearance before they arrive here: photons sharing a non-zero label would no longer be grouped (their interference is lost)", construct=src(lit[0]) if lit else "")
